@@ -1,9 +1,9 @@
-(* Obligation C20/normal_pdf_integrates_to_one.  Statement as printed by Coq from Inferno.C20.DistProofs; proof by reference.
+(* Obligation C20/normal_pdf_integrates_to_one.  Statement as printed by Coq from Inferno.C20.DistNormal; proof by reference.
    This file contains nothing else, so the statement cannot be weakened quietly. *)
 From Coq Require Import Reals List ZArith Bool.
 From Coquelicot Require Import Coquelicot.
 From Flocq Require Import Core.Raux.
-From Inferno Require Import Base.Num Base.NumR C20.Model C20.Spec C20.DistProofs.
+From Inferno Require Import Base.Num Base.NumR Gen.Distributions C20.Model C20.Spec C20.DistNormal.
 Import ListNotations.
 Open Scope R_scope.
 Theorem normal_pdf_integrates_to_one : forall (erf : R -> R) (loc : T RN) (scale : R),
@@ -15,5 +15,5 @@ Theorem normal_pdf_integrates_to_one : forall (erf : R -> R) (loc : T RN) (scale
    is_lim (fun b : R => RInt (fun x : R => normal_pdf RN (2 * PI) x loc scale) a b) p_infty
      (1 - normal_cdf RN erf a loc scale)) /\
   is_lim (fun a : R => 1 - normal_cdf RN erf a loc scale) m_infty 1.
-Proof. exact (@Inferno.C20.DistProofs.normal_pdf_integrates_to_one). Qed.
+Proof. exact (@Inferno.C20.DistNormal.normal_pdf_integrates_to_one). Qed.
 Print Assumptions normal_pdf_integrates_to_one.
